@@ -342,6 +342,8 @@ def R6_amount_accounting(run):
     for (bi, t, args) in calls_to(fn, ends("compute_swap"), ctx={}, cut=True):
         m = SL.SwapModel(facts, {})
         ok = m.is_var(args[0], "remaining") and m.is_var(args[2], "liquidity") and m.is_var(args[3], "price") and is_param(args[5], "amount_specified_is_input") and is_param(args[6], "a_to_b")
+        # ... read as they are at this step, not from a copy taken earlier in the loop
+        ok = ok and m.reads_now(bi, t["a"][0], "remaining") and m.reads_now(bi, t["a"][2], "liquidity") and m.reads_now(bi, t["a"][3], "price")
         run.check("R6", "step-inputs", ok, "compute_swap is not called with (remaining, rate, current liquidity, current price, target, exact_in, a_to_b): %s" % [sh(a, 40) for a in args],
                   loc=fn.loc(t["l"]), detail="compute_swap(remaining, rate, liquidity, price, target, exact_in, a_to_b)")
     # loop exit conditions
